@@ -171,6 +171,27 @@ def random_fields(rng):
     return [(edges[i], edges[i + 1] - edges[i]) for i in range(n)]
 
 
+ASCII_NAMES = [b"balances", b"owner", b"allowances", b"a", b"storage.slot.v1", b"eip1967.proxy.implementation",
+               b"0123456789abcdef0123456789abcdef", b"x y", b"Z"]
+
+
+def big_slot(rng):
+    """Slot numbers far from the small integers: wide, boundary, and ones whose bytes read as text (left- or
+    right-aligned), as used by hand-placed "named" storage."""
+    r = rng.random()
+    if r < 0.3:
+        name = rng.choice(ASCII_NAMES)
+        return int.from_bytes(name.ljust(32, b"\0"), "big")
+    if r < 0.4:
+        return int.from_bytes(rng.choice(ASCII_NAMES), "big")
+    if r < 0.6:
+        return rng.getrandbits(256)
+    if r < 0.8:
+        return (1 << rng.choice([64, 128, 160, 255])) + rng.randrange(0, 3)
+    return rng.choice([(1 << 256) - 1, (1 << 256) - 2, (1 << 64) - 1, 10000, 9999,
+                       0x360894a13ba1a3210667c828492db98dca3e2076cc3735a920a3ca505d382bbc])
+
+
 def random_ground_truth(rng, nvars=None, slot_pool=None, kinds=None):
     nvars = nvars or rng.randint(1, 12)
     kinds = kinds or ["word", "addr", "mapping", "dynarray", "packed"]
@@ -182,13 +203,21 @@ def random_ground_truth(rng, nvars=None, slot_pool=None, kinds=None):
                 s = rng.choice(slot_pool)
             else:
                 r = rng.random()
-                s = rng.randrange(0, 12) if r < 0.6 else (rng.randrange(12, 300) if r < 0.85 else rng.randrange(300, 9000))
+                if r < 0.55:
+                    s = rng.randrange(0, 12)
+                elif r < 0.75:
+                    s = rng.randrange(12, 300)
+                elif r < 0.85:
+                    s = rng.randrange(300, 9000)
+                else:
+                    s = big_slot(rng)
             if s not in used:
                 used.add(s)
                 break
         kind = rng.choice(kinds)
         var = {"kind": kind, "slot": s}
-        if kind == "dynarray" and slot_pool is None and rng.random() < 0.4:
+        # pre-folded hashes are only recognised for slot numbers below 10000 (documented)
+        if kind == "dynarray" and slot_pool is None and s < 10000 and rng.random() < 0.4:
             var["prefolded"] = True
             if rng.random() < 0.6:
                 cand = [x for x in special_hash_slots() if x not in used]
